@@ -217,7 +217,7 @@ def run_doc(res, xmlschema, rec, schema, fam, version, text, prefixes, nsmap, wi
                 res.violation('max_depth-changes-content-above-the-cut', dict(case0, max_depth=k), f'{fam} max_depth={k}: {bad}')
             else:
                 res.count('max_depth:agree')
-    if res.evaluations % 25 == 0:
+    if len(res.samples) < 2:
         res.sample({'family': fam, 'elements': len(items), 'example_paths': [sp for _, _, sp in items[:4]]})
 
 
